@@ -58,15 +58,15 @@ def run(ctx, col, tier):
     repo = ctx.repo
     col.rule("R-UNIF", "kept nodes' columns are gathered for the source's whole key set with the "
              "single old-id mapping returned by the compaction call; id/pid come from the same call; "
-             "the reported mapping is filled from that very value", floor=9)
+             "the reported mapping is filled from that very value", floor=9, shape=True)
     col.rule("R-SENT", "root / removal markers: the new root's parent is reset to -1 on every "
              "path, compaction maps -1 to -1, the removal marker is negative and different from "
-             "-1, removal is inherited by descendants", floor=5)
+             "-1, removal is inherited by descendants", floor=5, shape=True)
     col.rule("R-COMPACT", "compaction keeps exactly the unmarked rows (same mask for ids and "
-             "parents), numbers them 0..m-1 in order and remaps parents through old->new", floor=6)
+             "parents), numbers them 0..m-1 in order and remaps parents through old->new", floor=6, shape=True)
     col.rule("R-SELECT", "selection rules: subtree = pre-order descendants from the start node; "
              "removal set marks exactly the given ids; cut callbacks / type / order rules feed "
-             "that set as stated (decision tables)", floor=10)
+             "that set as stated (decision tables)", floor=10, shape=True)
     col.rule("R-CG", "recursion-free", floor=3)
     col.rule("R-ORDER", "no recurrence along the node numbering in the selection / compaction code: "
              "no loop over rows in storage order reads, at the row's parent, an array it fills in "
